@@ -195,20 +195,36 @@ pub fn judge_c18(info: &Info, log: &RunLog, rep: &mut Report) {
     let got_md = before.iter().any(|p| kind_of(p) == Kind::Metadata);
     let cov = covered_bytes(before.iter().cloned(), t.content.len());
     let complete = got_md && cov.iter().all(|c| *c);
-    // 5. a receiver that is missing data or metadata does not report a complete delivery
+    // 5. a receiver that is missing data or metadata does not report a complete delivery.
+    // Every report is judged against what the transaction incarnation that made it had been given: PDUs
+    // arriving after a receive transaction has ended make the daemon start a new one from scratch.
     if eof_arr.is_some() {
         rep.count(if complete { "c18_eof_delivered:complete" } else { "c18_eof_delivered:incomplete" });
     }
-    if !complete {
-        for (_, _, f) in d.finished(t.dst, id) {
-            if f.delivery_code == DeliveryCode::Complete {
-                rep.violate("unack-incomplete-reported-complete", format!("{} where=indication metadata_delivered={} cond={:?}", cfgkey, got_md, f.report.condition), &info.case, w("receiver's Finished indication says Complete although data or metadata was missing at EOF"));
+    let spans = d.spans(id, TaskKind::Recv);
+    let held_at = |li: usize, tu: u64| -> (bool, bool) {
+        let start = spans.iter().filter(|s| s.start_us <= tu).map(|s| s.start_us).max().unwrap_or(0);
+        let set: Vec<&PDU> = arr.iter().filter(|a| a.1 >= start && a.0 < li).map(|a| a.3).collect();
+        let md = set.iter().any(|p| kind_of(p) == Kind::Metadata);
+        let cov = covered_bytes(set.iter().cloned(), t.content.len());
+        (md, cov.iter().all(|c| *c))
+    };
+    for (li, tu, f) in d.finished(t.dst, id) {
+        if f.delivery_code == DeliveryCode::Complete {
+            let (md, all) = held_at(li, tu);
+            rep.count("c18_complete_reports_judged");
+            if !(md && all) {
+                rep.violate("unack-incomplete-reported-complete", format!("{} where=indication metadata_held={} data_held={} cond={:?}", cfgkey, md, all, f.report.condition), &info.case, w("receiver's Finished indication says Complete although the transaction did not hold the metadata and every byte"));
             }
         }
-        for e in d.emits(t.dst, id) {
-            if let PDUPayload::Directive(Operations::Finished(f)) = &e.4.payload {
-                if f.delivery_code == DeliveryCode::Complete {
-                    rep.violate("unack-incomplete-reported-complete", format!("{} where=pdu metadata_delivered={} cond={:?}", cfgkey, got_md, f.condition), &info.case, w("receiver's Finished PDU says Complete although data or metadata was missing at EOF"));
+    }
+    for e in d.emits(t.dst, id) {
+        if let PDUPayload::Directive(Operations::Finished(f)) = &e.4.payload {
+            if f.delivery_code == DeliveryCode::Complete {
+                // the PDU is logged a few ms after it was built
+                let (md, all) = held_at(e.0, e.1);
+                if !(md && all) {
+                    rep.violate("unack-incomplete-reported-complete", format!("{} where=pdu metadata_held={} data_held={} cond={:?}", cfgkey, md, all, f.condition), &info.case, w("receiver's Finished PDU says Complete although the transaction did not hold the metadata and every byte"));
                 }
             }
         }
@@ -317,7 +333,7 @@ pub fn run_c18(tier: &str, seed: u64, replay: Option<&str>) -> (Meta, Report) {
     let n = c18_space().len();
     let mut rep = run_cases(n, "c18-sys", move |i| c18_case("sys", i, seed), judge_c18);
     rep.add("cases:sys", n as u64);
-    let nr = if thorough { 60_000 } else { 3_000 };
+    let nr = if thorough { 800_000 } else { 3_000 };
     rep.merge(run_cases(nr, "c18-rand", move |i| c18_case("rand", i, seed), judge_c18));
     rep.add("cases:rand", nr as u64);
     (meta, rep)
@@ -545,7 +561,7 @@ pub fn run_c19(tier: &str, seed: u64, replay: Option<&str>) -> (Meta, Report) {
     let m = (n - off + stride - 1) / stride;
     let mut rep = run_cases(m, "c19-sys", move |i| c19_case("sys", off + i * stride, seed), judge_c19);
     rep.add("cases:sys", m as u64);
-    let nr = if thorough { 60_000 } else { 3_000 };
+    let nr = if thorough { 800_000 } else { 3_000 };
     rep.merge(run_cases(nr, "c19-rand", move |i| c19_case("rand", i, seed), judge_c19));
     rep.add("cases:rand", nr as u64);
     let mut meta = meta;
@@ -775,7 +791,7 @@ pub fn run_c20(tier: &str, seed: u64, replay: Option<&str>) -> (Meta, Report) {
         let (_, fam, idx, sd) = parse_case(r);
         return (meta, run_single(c20_case(&fam, idx, sd).expect("case"), judge_c20));
     }
-    let n = if thorough { 60_000 } else { 3_000 };
+    let n = if thorough { 400_000 } else { 3_000 };
     let mut rep = Report::new();
     for fam in ["prompt", "susp", "fault"] {
         rep.merge(run_cases(n, "c20", move |i| c20_case(fam, i, seed), judge_c20));
